@@ -235,5 +235,10 @@ func TestWriteWitnesses(t *testing.T) {
 	ufffd.Top.Edges = []dotEdge{{F: 0, T: 1}}
 	write("dot-id-with-ufffd", "dot-rt", ufffd)
 	write("dot-unmarshal-self-loop-in-chain", "dot-total", dotBytesCase{Data: []byte("digraph G { a -> c -> c; }")})
+	reuse := dotCase{Directed: true, Indent: " ", Nodes: []dotNode{{ID: 1, DOTID: []byte("c")}, {ID: 2, DOTID: []byte("d")}, {ID: 20, DOTID: []byte("a")}, {ID: 21, DOTID: []byte("b")}},
+		SubNodes: []dotSubNode{{ID: 10, Name: []byte("s"), Members: []int{2, 3}}}}
+	reuse.Top.Nodes = []int{0, 1}
+	reuse.Top.Edges = []dotEdge{{F: -1, T: 0}, {F: -1, T: 1}}
+	write("dot-subgraph-vertex-reused", "dot-rt", reuse)
 	write("cytoscapejs-element-type-edge", "json-rt", jsonCase{Kind: 0, Elems: []jElem{{Group: "edge", ID: "e", Source: "a", Target: "b"}}})
 }
